@@ -156,7 +156,13 @@ struct YearlyMaxCosts {
 fn calc_yearly_max_cost_day(max_day_costs: &MaxDayCosts) -> YearlyMaxCosts {
     let mut max_cost_day_for_year = HashMap::<i32, Date>::new();
 
-    for (day, day_cost) in &max_day_costs.max_costs_by_day {
+    // Go through the days in order, so that when several days of a year tie for
+    // the maximum, the earliest is always the one picked (rather than whichever
+    // the HashMap happens to yield first).
+    let mut sorted_days: Vec<&Date> = max_day_costs.max_costs_by_day.keys().collect();
+    sorted_days.sort();
+    for day in sorted_days {
+        let day_cost = max_day_costs.max_costs_by_day.get(day).unwrap();
         match max_cost_day_for_year.get(&day.year()) {
             Some(old_date) => {
                 let old_date_cost =
